@@ -115,6 +115,7 @@ type frame struct {
 	panicking        bool
 	panic            interface{}
 	phitemps         []value // temporaries for parallel phi assignment
+	phisDone         bool    // the phis of fr.block were already assigned by if-conversion
 }
 
 func (fr *frame) get(key ssa.Value) value {
@@ -263,8 +264,14 @@ func visitInstr(fr *frame, instr ssa.Instruction) continuation {
 		store(mustDeref(instr.Addr.Type()), fr.get(instr.Addr).(*value), fr.get(instr.Val))
 
 	case *ssa.If:
+		cv := fr.get(instr.Cond)
+		if sc, isSym := cv.(sym); isSym && !fr.i.x.NoMerge {
+			if fr.tryMerge(instr, sc) {
+				return kJump
+			}
+		}
 		succ := 1
-		if fr.i.x.truth(fr.get(instr.Cond)) {
+		if fr.i.x.truth(cv) {
 			succ = 0
 		}
 		fr.prevBlock, fr.block = fr.block, fr.block.Succs[succ]
@@ -590,6 +597,10 @@ func executePhis(fr *frame) []ssa.Instruction {
 	// Inv: 0 <= firstNonPhi; every block contains a non-phi.
 
 	nonPhis := fr.block.Instrs[firstNonPhi:]
+	if fr.phisDone {
+		fr.phisDone = false
+		return nonPhis
+	}
 	if firstNonPhi > 0 {
 		phis := fr.block.Instrs[:firstNonPhi]
 		// Execute parallel assignment of phis.
@@ -642,4 +653,3 @@ func doRecover(caller *frame) value {
 	}
 	return iface{}
 }
-
